@@ -37,6 +37,9 @@ theorem fact_signature_count_checked :
 /-- `parseLamportClock` refuses negative, too large and non-integral `lc` values (the model's `lcStrict`) -/
 theorem fact_lc_strict : srcCfg.lcStrict = true := by decide
 
+/-- an embedded `jwk` that is a private (EC/RSA/OKP) or symmetric key is refused -/
+theorem fact_jwk_public_only : srcCfg.jwkPublicOnly = true := by decide
+
 /-- the prevs verifier: starts at −1, keeps the maximum, demands `clock = max + 1` -/
 theorem fact_prev_verifier :
     Facts.C06.prevVerifierInit = ["-1"] ∧
@@ -79,6 +82,23 @@ theorem parse_sound (cfg : Cfg) (b64 : String → Bool) (h : Hdr) (tx : Tx)
     (hp : parse cfg b64 h = .ok tx) : WellFormed cfg b64 h tx :=
   parse_wellFormed hp
 
+/-- a valid header whose `lc` is 1.5 (= 3·2⁻¹) -/
+def lcWitness : Hdr :=
+  { nSigs := 1, alg := "ES256", cty := "a/b", hasJwk := true, kid := none, payload := "", ref := 7,
+    priv := [("sigt", .num 1 0), ("ver", .num 1 0), ("prevs", .arr []), ("lc", .num 3 (-1))] }
+
+/-- an accepted transaction never embeds private key material (for the source as it is now, `fact_jwk_public_only`) -/
+theorem embedded_key_is_public (b64 : String → Bool) (h : Hdr) (tx : Tx) (hp : parse srcCfg b64 h = .ok tx)
+    (hj : h.hasJwk = true) : h.jwkPrivate = false :=
+  (parse_wellFormed hp).jwkPublic fact_jwk_public_only hj
+
+/-- without that guard a header embedding a private key parses (the code before the repair) -/
+theorem embedded_private_key_accepted_without_guard :
+    ∃ h tx, h.hasJwk = true ∧ h.jwkPrivate = true ∧ parse { srcCfg with jwkPublicOnly := false } (fun _ => true) h = .ok tx :=
+  ⟨{ lcWitness with jwkPrivate := true, priv := [("sigt", .num 1 0), ("ver", .num 1 0), ("prevs", .arr []), ("lc", .num 0 0)] },
+   { ref := 7, alg := "ES256", payloadHash := 0, cty := "a/b", jwk := true, kid := "", sigt := 1, ver := 1, prevs := [], pal := [], clock := 0 },
+   rfl, rfl, by decide⟩
+
 /-- **lc is exact** (for the source as it is now, `fact_lc_strict`): the admitted clock IS the declared `lc`
     header value, which is an integer in [0, 2^32). -/
 theorem lc_exact (b64 : String → Bool) (h : Hdr) (tx : Tx) (hp : parse srcCfg b64 h = .ok tx) :
@@ -90,11 +110,6 @@ theorem lc_exact (b64 : String → Bool) (h : Hdr) (tx : Tx) (hp : parse srcCfg 
 def LcExactStmt (cfg : Cfg) : Prop :=
   ∀ (b64 : String → Bool) (h : Hdr) (tx : Tx), parse cfg b64 h = .ok tx →
     ∃ m e, h.get cfg.lcH = some (.num m e) ∧ numEqNat m e tx.clock
-
-/-- a valid header whose `lc` is 1.5 (= 3·2⁻¹) -/
-def lcWitness : Hdr :=
-  { nSigs := 1, alg := "ES256", cty := "a/b", hasJwk := true, kid := none, payload := "", ref := 7,
-    priv := [("sigt", .num 1 0), ("ver", .num 1 0), ("prevs", .arr []), ("lc", .num 3 (-1))] }
 
 /-- **Candidate defect #15, as a theorem**: without the integrality/range guard (`lcStrict = false`, the code before the
     repair) `lc: 1.5` is accepted with clock 1 — `LcExactStmt` is false. The harness replays this witness
